@@ -69,6 +69,16 @@ def run(ctx):
         if a != b:
             ctx.violation("a reused Searcher reports different coordinates / byte count than a fresh one",
                           dict(kind=203, line=rl[ridx.index(i)], case=sg.describe(cases[i]), fresh=a, reused=b))
+    # the context windows, numbers and offsets of the reference must also come out of the incremental reader with a
+    # tiny roll buffer (what is kept across a roll is decided by the context sizes)
+    sidx = [i for i in range(1, len(cases), 3) if not cases[i]["cfg"]["stop_on_nonmatch"]]
+    small = [c02.reader_line(cases[i], None, rng.choice([1, 2, 3, 5, 8]), None, []) for i in sidx]
+    for i, l, a in zip(sidx, small, vlib.code(201, small)):
+        if a.startswith("(9"):
+            continue
+        if a != ro[i]:
+            ctx.violation("the incremental reader with a small roll buffer delivers other results than the grep reference",
+                          dict(kind=201, line=l, case=sg.describe(cases[i]), reader=a, ref=ro[i]))
     mlc = [sg.gen_case(rng, multi_line=True) for _ in range(ctx.count(300))]
     mll = [sg.case_val(c) for c in mlc]
     for c, l, a, b in zip(mlc, mll, vlib.code(204, mll), vlib.code(205, mll)):
